@@ -57,7 +57,8 @@ def gen_cases(tier: str, seed: int):
         yield {"kind": "sampler", "cfg": {"n_chain": n_chain, "n_warm": n_warm, "n_main": int(rng.choice([0, 1, 4])),
                                           "adapters": [] if mix == "none" else mix.split("+"), "stager": stager, "seed": int(rng.integers(0, 10**6)),
                                           "transition": str(rng.choice(["static", "multinomial"])), "dim": int(rng.integers(2, 4)),
-                                          "trace_warm_up": bool(rng.integers(0, 2)), "step_size": 0.37, "n_process": 1}}
+                                          "trace_warm_up": bool(rng.integers(0, 2)), "step_size": 0.37, "n_process": 1,
+                                          "front_end": "mcmc" if i % 4 == 3 else "hmc", "init": "state"}}
 
 
 def make_stager(w):
